@@ -469,6 +469,7 @@ Index(
     dtype={dtype},
     checks={checks},
     nullable={nullable},
+    unique={unique},
     coerce={coerce},
     name={name},
     description={description},
@@ -537,6 +538,7 @@ def _format_index(index_statistics):
                 else _format_checks(properties["checks"])
             ),
             nullable=properties["nullable"],
+            unique=bool(properties.get("unique", False)),
             coerce=properties["coerce"],
             name=(
                 "None"
